@@ -30,8 +30,9 @@ RULE = (
     "of the ancestor (add / remove / change per key) so that successes, conflicts, double removals and policy "
     "refusals all occur; policies: None, [] and every non-empty sublist of add/remove/change, some reordered. "
     "quick: seeded samples of all streams + a sample of sweep rows; thorough: additionally ALL triples over "
-    "3 keys x (absent + 3 values) x 9 policies on _merge, all triples over 2 keys x (absent + 3 real values), and "
-    "all triples over 2 keys x (absent + 2 values) through merge() on a real object store. A case is non-trivial "
+    "3 keys x (absent + 3 values) x 7 policies on _merge (+ a quarter again under None and []), all triples over "
+    "2 keys x (absent + 3 real values) x 9 policies, and "
+    "all triples over 2 keys x (absent + 2 values) x 4 policies through merge() on a real object store. A case is non-trivial "
     "when both sides differ from the ancestor (the code reaches the double patch) or the call raised."
 )
 ASSUMPTIONS = [
@@ -495,7 +496,8 @@ def merge_item(ctx, vals, case, corpus=False):
     ks = [tuple(k) for k in case["keys"]]
     for sig, what in problems:
         small = shrink_merge(ctx, vals, case, sig)
-        ctx.oracle_fail(sig, what, small)
+        _, _, p2, _ = run_merge_case(ctx, vals, small, shuffle=False)
+        ctx.oracle_fail(sig, next((w for s, w in p2 if s == sig), what), small)
     both = a != o and a != t
     ctx.case(case, both or r1[0] != "ok")
     ctx.count("merge:" + ("ok" if r1[0] == "ok" else f"err{r1[1]}") + ("/two-sided" if both else "/one-sided"))
@@ -719,10 +721,30 @@ def run_tree_case(ctx, case):
     return term, exp, problems, res, (a, o, t)
 
 
+def shrink_tree(ctx, case, sig, what):
+    """drop keys while the same oracle failure persists"""
+    cur = dict(case, shuffle=False)
+    changed = True
+    while changed and len(cur["keys"]) > 1:
+        changed = False
+        for i in range(len(cur["keys"])):
+            c2 = dict(cur)
+            for f in ("keys", "a", "o", "t"):
+                if cur[f] is not None:
+                    c2[f] = list(cur[f][:i]) + list(cur[f][i + 1:])
+            probs = run_tree_case(ctx, c2)[2]
+            w2 = next((w for s, w in probs if s == sig), None)
+            if w2 is not None:
+                cur, what, changed = c2, w2, True
+                break
+    return cur, what
+
+
 def tree_item(ctx, case):
     term, exp, problems, res, (a, o, t) = run_tree_case(ctx, case)
     for sig, what in problems:
-        ctx.oracle_fail(sig, what, case)
+        small, what = shrink_tree(ctx, case, sig, what)
+        ctx.oracle_fail(sig, what, small)
     both = a != o and a != t
     ctx.case(case, both or res[0] != "ok")
     ctx.count("tree:" + ("ok" if res[0] == "ok" else f"err{res[1]}") + ("/two-sided" if both else "/one-sided"))
@@ -759,7 +781,7 @@ def tree_exhaustive(ctx):
     for a in cells:
         for o in cells:
             for t in cells:
-                for pol in POLS:
+                for pol in (None, ["add", "remove"], ["remove", "change"], ["add", "remove", "change"]):
                     items.append(tree_item(ctx, {"stream": "tree", "mode": "md5", "keys": ks, "a": list(a),
                                                  "o": list(o), "t": list(t), "pol": pol}))
     return items
@@ -794,7 +816,9 @@ def run(ctx):
     ks3 = [("a",), ("d", "b"), ("d", "c")]
     cells3 = list(itertools.product(range(4), repeat=3))
     if thorough:
-        rows = [(a, o, pol) for pol in POLS for a in cells3 for o in cells3]
+        rows = [(a, o, pol) for pol in POLS[2:] for a in cells3 for o in cells3]
+        # None and [] are turned into ["add"] by one line ("if not allowed"): a quarter of the rows each
+        rows += [(a, o, pol) for pol in POLS[:2] for a in cells3 for o in cells3 if ctx.rng.random() < 0.25]
     else:
         rows = [(ctx.rng.choice(cells3), ctx.rng.choice(cells3), ctx.rng.choice(POLS)) for _ in range(ctx.n(150, 0))]
     s_items = sweep_rows(ctx, svals, ks3, 4, rows, "str")
@@ -805,14 +829,15 @@ def run(ctx):
         rows2 = [(a, o, pol) for pol in POLS for a in cells2 for o in cells2]
         s2_items = sweep_rows(ctx, Values(value_pool()[:3]), ks2, 4, rows2, "pool")
     ctx.obligation("oracle:_merge-sweep", oracle_ok(ctx),
-                   f"{(len(s_items)) * 64 + len(s2_items) * 16} real _merge runs over complete their-listing ranges "
-                   + ("(ALL triples over 3 keys x 4 cells x 9 policies, and 2 keys x 4 cells with real values)"
+                   f"{len(s_items) * 64 + len(s2_items) * 16} real _merge runs over complete their-listing ranges "
+                   + ("(ALL triples over 3 keys x 4 cells x the 7 non-empty policies, a quarter of them again under "
+                      "None and []; ALL triples over 2 keys x 4 cells x 9 policies with real values)"
                       if thorough else "(sampled rows)"))
     ctx.extra["exhaustive"] = thorough
     tm["py_sweep"] = round(time.time() - t0, 2)
     t0 = time.time()
 
-    t_items = stream_tree(ctx, ctx.n(220, 1500))
+    t_items = stream_tree(ctx, ctx.n(220, 1000))
     if thorough:
         t_items += tree_exhaustive(ctx)
     ctx.obligation("oracle:merge-objects", oracle_ok(ctx),
@@ -831,7 +856,7 @@ def run(ctx):
     ):
         if items:
             t1 = time.time()
-            ctx.correspond(name, IMPORTS, ty, fn, items, shard={"tree": 40, "merge": 150}.get(name, 250))
+            ctx.correspond(name, IMPORTS, ty, fn, items, shard={"tree": 120 if thorough else 40, "merge": 150}.get(name, 250))
             tm["coq_" + name] = round(time.time() - t1, 2)
     tm["coq"] = round(time.time() - t0, 2)
     ctx.extra["timing_s"] = tm
@@ -845,7 +870,9 @@ def replay_case(ctx, case):
     if stream == "tree":
         case = dict(case, keys=[tuple(k) for k in case["keys"]])
         term, exp, problems, res, _ = run_tree_case(ctx, case)
-        return {"result": res, "problems": problems, "violates": bool(problems)}
+        model = ctx.coq_eval_val("replay", IMPORTS, f"run_tree {term}")
+        return {"result": res, "model [ok, oid, [size, cells]] | [0, error]": model, "problems": problems,
+                "violates": bool(problems)}
     if stream != "merge":
         return {"violates": False, "note": f"stream {stream} has no oracle of its own"}
     case = dict(case, keys=[tuple(k) for k in case["keys"]])
@@ -854,4 +881,7 @@ def replay_case(ctx, case):
     else:
         vals = Values(value_pool())
     r1, r2, problems, _ = run_merge_case(ctx, vals, case, shuffle=False)
-    return {"result": r1, "swapped": r2, "problems": problems, "violates": bool(problems)}
+    term = f"({ckeys(case['keys'])}, {ccells(case['a'])}, {ccells(case['o'])}, {ccells(case['t'])}, {cpol(case['pol'])})"
+    model = ctx.coq_eval_val("replay", IMPORTS, f"run_merge {term}")
+    return {"result": r1, "swapped": r2, "model [_merge a o t, _merge a t o, merge3]": model, "problems": problems,
+            "violates": bool(problems)}
